@@ -28,6 +28,7 @@ R_w3N  == SeqsUpTo(V2N, 3)               \* 40 records
 R_2x2  == [1..2 -> V2]                   \* rectangular, width 2
 R_2x2N == [1..2 -> V2N]
 R_none == {}
+R_q4   == {<<S(97)>>, <<S(97), S(97)>>, <<S(97), S(98)>>, <<S(98), S(97)>>}     \* quick tier: 4 records incl. a short one
 
 \* ---------------------------------------------------------------- C01: select / where
 WhereSet == {TRUEx, <<"eq", Fa(1), L(97)>>, <<"nrodd">>, Fa(2)}      \* Fa(2): truthiness of a bare field (None / "" are falsy)
@@ -51,6 +52,9 @@ WhereJoin == {TRUEx, <<"isnone", Fb(1)>>, <<"eq", Fb(2), L(97)>>}
 
 Q_C04sel == {[BaseQ EXCEPT !.items = <<it>>, !.where = w, !.join = j, !.jkeys = ks] :
                 it \in ItemsJoin, w \in WhereJoin, j \in {"inner", "left", "strict"}, ks \in JoinKeys}
+ItemsJoinQ == {E(Fa(1)), E(Fb(2)), E(<<"bNR">>), <<"star">>, <<"bstar">>, <<"unnest", <<"flds", <<1, 2>>>>>>}
+Q_C04selQ == {[BaseQ EXCEPT !.items = <<it>>, !.where = w, !.join = j, !.jkeys = ks] :
+                it \in ItemsJoinQ, w \in {TRUEx, <<"isnone", Fb(1)>>}, j \in {"inner", "left", "strict"}, ks \in JoinKeys}
 Q_C04pairs == {[BaseQ EXCEPT !.items = <<i1, i2>>, !.join = j, !.jkeys = << <<1, 1>> >>] :
                 i1 \in {E(Fa(1)), <<"astar">>, <<"unnest", <<"flds", <<1, 2>>>>>>}, i2 \in {E(Fb(2)), <<"bstar">>, E(<<"bNR">>)}, j \in {"inner", "left"}}
 
@@ -64,6 +68,11 @@ Q_C02 == {[BaseQ EXCEPT !.items = its, !.where = w, !.order = o, !.desc = d, !.d
             w \in {TRUEx, <<"nrodd">>}, o \in OrderSet, d \in BOOLEAN, di \in {"none", "uniq", "count"},
             ht \in BOOLEAN, t \in 0..4}
 Q_C02ok == {qq \in Q_C02 : (qq.order = <<>> => ~qq.desc) /\ (~qq.hastop => qq.top = 0)}
+
+\* a small family on which every C02 specification mutant must fail (R5)
+Q_C02mut == {[BaseQ EXCEPT !.items = <<E(Fa(1))>>, !.hastop = TRUE, !.top = 1],
+             [BaseQ EXCEPT !.items = <<E(Fa(1)), E(NRx)>>, !.order = <<Fa(1)>>, !.desc = TRUE],
+             [BaseQ EXCEPT !.items = <<E(Fa(1))>>, !.distinct = "uniq", !.order = <<Fa(2)>>]}
 
 Q_C02join == {[BaseQ EXCEPT !.items = <<E(Fa(1)), E(Fb(2))>>, !.join = "inner", !.jkeys = << <<1, 1>> >>,
                            !.order = o, !.desc = d, !.distinct = di, !.hastop = ht, !.top = t] :
